@@ -282,6 +282,10 @@ theorem C29_json1_hash_index (i : Int) : Key.json1Safe true (.idx i) = true ∧
 
 /-! ### membership and length -/
 
+/-- `py_json_contains` in the source has the shape the model `pyJsonContains` mirrors: it parses the document first and has one `return`,
+    after the traversal (no shortcut on the raw JSON text, where strings are escaped) -/
+theorem C29_src_contains : JsonLits.pyJsonContainsParsesFirst = true := by decide
+
 /-- `key in x.data[path]` : for a list or a dict, `py_json_contains` is Python's `in` -/
 theorem C29_contains (cte : Bool) (doc : Json) (pk : Option (List Key)) (key : Text) (v : Json) (b : Bool)
     (h : traverse cte doc pk = .ok v) (hin : pyIn key v = some b) : pyJsonContains cte doc pk key = .ok b := by
